@@ -305,6 +305,45 @@ func c19GenSystem(t *rapid.T) c19Sys {
 		w.l(2, s)
 	}
 	w.l(0, "")
+	// ----- project app for sequence diagrams (project mode: one diagram per endpoint, app-level and
+	// endpoint-level blackboxes; a one-character comment and a key repeated by a diagram included) -----
+	anyEp := func(label string) string {
+		s := pick(t, svcNames, label+"s")
+		return s + " <- " + pick(t, svcEps[s], label+"e")
+	}
+	bb := func(label string) string {
+		return "['" + anyEp(label) + "', '" + pick(t, []string{"-", "x", "stop here", "see other page"}, label+"c") + "']"
+	}
+	appBB := ""
+	var appKeys []string
+	if rapid.IntRange(0, 3).Draw(t, "sdappbb") != 0 {
+		n := rapid.IntRange(1, 2).Draw(t, "nsdappbb")
+		var parts []string
+		for i := 0; i < n; i++ {
+			k := anyEp(fmt.Sprintf("sdappbb%d", i))
+			appKeys = append(appKeys, k)
+			parts = append(parts, "['"+k+"', '"+pick(t, []string{"-", "x", "stop here"}, "sdappbbc")+"']")
+		}
+		appBB = " [blackboxes=[" + strings.Join(parts, ", ") + "]]"
+	}
+	w.l(0, "ProjSeq"+appBB+":")
+	nd := rapid.IntRange(2, 4).Draw(t, "nsddiagrams")
+	for i := 0; i < nd; i++ {
+		attr := ""
+		switch rapid.IntRange(0, 3).Draw(t, "sdepbb") {
+		case 0:
+			attr = " [blackboxes=[" + bb(fmt.Sprintf("sdepbb%d", i)) + "]]"
+		case 1:
+			if len(appKeys) > 0 {
+				attr = " [blackboxes=[['" + pick(t, appKeys, "sdrepeat") + "', 'again']]]"
+			}
+		}
+		w.l(1, fmt.Sprintf("D%d%s:", i, attr))
+		for j := 0; j < rapid.IntRange(1, 2).Draw(t, "nsdstarts"); j++ {
+			w.l(2, anyEp(fmt.Sprintf("sdstart%d_%d", i, j)))
+		}
+	}
+	w.l(0, "")
 	for _, e := range svcEps[svcNames[0]] {
 		out.SdEps = append(out.SdEps, svcNames[0]+" <- "+e)
 	}
